@@ -278,7 +278,7 @@ def analyse_tu(eng, cfg):
     ctx = irrules.constructor_context(eng)
     rule = PairRule(eng, cfg, ctx)
     nfun = 0
-    for f in irrules.gch_roots(eng):
+    for f in irrules.maximal_roots(eng):
         if not eng.oracle.writes_fields.get(f.name):
             continue
         nfun += 1
